@@ -9,6 +9,7 @@ Python: `eqsig/fns/peaks_and_crossings.py`, `get_zero_crossings_array_indices`, 
 All theorems are stated under the guard `v ≠ []` (the code raises `IndexError` on an empty series).
 -/
 namespace EqsigVerif.Props.C12
+set_option linter.unusedVariables false
 open EqsigVerif EqsigVerif.Model.Switched EqsigVerif.Model.Peaks
 
 /-- **C12.a** `zc_spec` (`tol = 0`): index `i` is reported iff it is in range and is index `0`, or an exact zero
@@ -55,5 +56,84 @@ theorem zc_strict_ascending (v : List ℚ) (keepAdj : Bool) :
   rw [zeroCrossings_zero]; exact allZc_pairwise v keepAdj
 
 example : (zeroCrossings [-1, 0, 0, 2, -2] false 0) = [0, 1, 4] := by decide +kernel
+
+
+/-- **C12.b** `zc_tol_sublist`: for `tol > 0` the result is a sublist (order-preserving subsequence) of the
+`tol = 0` result (the loop only collects positions `rem_i` that `np.delete` removes). -/
+theorem zc_tol_sublist (v : List ℚ) (hv : v ≠ []) (keepAdj : Bool) (tol : ℚ) (htol : 0 < tol) :
+    (zeroCrossings v keepAdj tol).Sublist (zeroCrossings v keepAdj 0) :=
+  zeroCrossings_sublist v keepAdj tol
+
+example : zeroCrossings [1, -1, 2, -3, 1/4, -1/4, 3] false (3/2) = [2, 3, 6] ∧
+    zeroCrossings [1, -1, 2, -3, 1/4, -1/4, 3] false 0 = [0, 1, 2, 3, 4, 5, 6] := by decide +kernel
+
+/-- **C12.c** `switched_shape` (`tol = 0`).  With `gs` the groups formed by the loop over the peaks
+(as `(index, value)` pairs):
+(i) the result is a sublist of `peaks v`;
+(ii) the groups partition the peaks in order;
+(iii) every group is non-empty and is either a single zero-valued peak or consists of peaks of one strict sign;
+(iv) the runs are maximal: members of neighbouring groups never share a strict sign (`x·y ≤ 0`);
+(v) the result lists, group by group, the index of the first member with the largest `|value|`;
+(vi) consecutive reported values `x, y` satisfy `x·y ≤ 0`.
+(Strict ascent of the result follows from (i) and C11.a for non-constant `v`; for a constant series
+`peaks v = [0, 0]` and e.g. `v = [0]` reports `[0, 0]`.) -/
+theorem switched_shape (v : List ℚ) (hv : v ≠ []) :
+    (switchedPeaks v 0).Sublist (peaks v) ∧
+    (∃ gs : List (List (ℕ × ℚ)),
+      gs.flatten = (peaks v).map (fun p => (p, v.getD p 0)) ∧
+      (∀ g ∈ gs, g ≠ [] ∧ ((∃ p, g = [(p, 0)]) ∨ (∀ e ∈ g, 0 < e.2) ∨ (∀ e ∈ g, e.2 < 0))) ∧
+      gs.IsChain (fun g g' => ∀ e ∈ g, ∀ e' ∈ g', e.2 * e'.2 ≤ 0) ∧
+      List.Forall₂ (fun r g => IsFirstArgmaxAbs g r) (switchedPeaks v 0) gs) ∧
+    (switchedPeaks v 0).IsChain (fun a b => v.getD a 0 * v.getD b 0 ≤ 0) := by
+  refine ⟨switchedPeaks_sublist_peaks v 0, ⟨switchedGroups v 0, switchedGroups_flatten v 0, ?_,
+    groups_chain_members _, ?_⟩, switchedPeaks_chain v⟩
+  · intro g hg
+    obtain ⟨r, hr⟩ := groups_ok _ g hg
+    exact ⟨groups_ne_nil _ _ g hg, hr.classify⟩
+  · rw [switchedPeaks_eq, List.forall₂_map_left_iff, List.forall₂_same]
+    intro g hg
+    exact report_spec g (groups_ne_nil _ _ g hg)
+
+example : peaks [0, 2, 1, 2, -1, 1, 1, 3/10, -1, 0, 0, 1/5, 1, 1/5] = [0, 1, 2, 3, 4, 5, 8, 12, 13] ∧
+    switchedPeaks [0, 2, 1, 2, -1, 1, 1, 3/10, -1, 0, 0, 1/5, 1, 1/5] 0 = [0, 1, 4, 5, 8, 12] := by decide +kernel
+example : switchedPeaks [5, 1, 3, -1] 0 = [0, 3] := by decide +kernel
+
+/-- **C12.d** `switched_global_max`: the global `max |v|` is attained at a reported index.
+`hdom` (every sample is dominated in `|·|` by a peak) is the consequence of C11.b proved separately. -/
+theorem switched_global_max (v : List ℚ) (hv : v ≠ [])
+    (hdom : ∀ i, i < v.length → ∃ p ∈ EqsigVerif.Model.Peaks.peaks v, |v.getD i 0| ≤ |v.getD p 0|) :
+    ∃ r ∈ switchedPeaks v 0, ∀ i, i < v.length → |v.getD i 0| ≤ |v.getD r 0| := by
+  obtain ⟨m, hm, hmax⟩ := exists_max_of_ne_nil (List.range v.length) (fun i => |v.getD i 0|)
+    (by simpa using hv)
+  obtain ⟨p, hp, hmp⟩ := hdom m (List.mem_range.1 hm)
+  obtain ⟨r, hr, hpr⟩ := peak_le_reported v 0 p hp
+  exact ⟨r, hr, fun i hi => le_trans (hmax i (List.mem_range.2 hi)) (le_trans hmp hpr)⟩
+
+/-- non-vacuity: `hdom` holds (by evaluation) on a concrete series, so the theorem applies to it -/
+example : ∃ r ∈ switchedPeaks [0, 1/100, 1/10, -3/10, -1/4, -4, 1] 0, ∀ i, i < 7 →
+    |([0, 1/100, 1/10, -3/10, -1/4, -4, 1] : List ℚ).getD i 0| ≤ |([0, 1/100, 1/10, -3/10, -1/4, -4, 1] : List ℚ).getD r 0| :=
+  switched_global_max [0, 1/100, 1/10, -3/10, -1/4, -4, 1] (by simp) (by decide +kernel)
+
+/-- **C12.f** Full statement (FALSE of code and model): "for `tol > 0` the switched result is a sublist of the
+`tol = 0` result".  Refuted below on `v = [0, 1/100, 1/10, -3/10, -1/4, -4, 1]`, `tol = 1/2`
+(`tol = 0` → `[0,2,5,6]`, `tol = 1/2` → `[0,3,5,6]`, as the Python code).
+Proved instead (`_partial`): for every `tol` (in particular `tol ≥ 0`) the result is a sublist of `peaks v`. -/
+theorem switched_tol_sublist_peaks_partial (v : List ℚ) (hv : v ≠ []) (tol : ℚ) (htol : 0 ≤ tol) :
+    (switchedPeaks v tol).Sublist (peaks v) :=
+  switchedPeaks_sublist_peaks v tol
+
+example : switchedPeaks [0, 1/100, 1/10, -3/10, -1/4, -4, 1] 0 = [0, 2, 5, 6] ∧
+    switchedPeaks [0, 1/100, 1/10, -3/10, -1/4, -4, 1] (1/2) = [0, 3, 5, 6] := by decide +kernel
+
+/-- counterexample to the full C12.f statement -/
+example : ¬ ∀ (v : List ℚ) (tol : ℚ), v ≠ [] → 0 < tol →
+    (switchedPeaks v tol).Sublist (switchedPeaks v 0) := by
+  intro h
+  have h1 := h [0, 1/100, 1/10, -3/10, -1/4, -4, 1] (1/2) (by simp) (by norm_num)
+  have e1 : switchedPeaks [0, 1/100, 1/10, -3/10, -1/4, -4, 1] (1/2) = [0, 3, 5, 6] := by decide +kernel
+  have e0 : switchedPeaks [0, 1/100, 1/10, -3/10, -1/4, -4, 1] 0 = [0, 2, 5, 6] := by decide +kernel
+  rw [e1, e0] at h1
+  revert h1
+  decide
 
 end EqsigVerif.Props.C12
